@@ -109,6 +109,11 @@ func ExecuteScenario(env *Env, sc *Scenario) (out *Outcome, err error) {
 		out.Violations = vs
 		return out, err
 	}
+	if sc.ExternalRoot != "" {
+		vs, err := executeUniverse(env, sc, sc.ExternalRoot)
+		out.Violations = vs
+		return out, err
+	}
 	root, err := env.NewWorld()
 	if err != nil {
 		return nil, infra("world: %v", err)
@@ -186,25 +191,42 @@ func ExecuteScenario(env *Env, sc *Scenario) (out *Outcome, err error) {
 			}
 		}
 	case "compare-alone":
-		// C05: variant 0 runs the packages together; variant "alone:<i>" runs package i alone
-		for vi := 1; vi < len(results); vi++ {
-			name := sc.Variants[vi].Name
-			if !strings.HasPrefix(name, "alone:") {
-				// another "together" order: must equal variant 0 for every package
-				if f, why := diffStates(dropSum(results[0].state), dropSum(results[vi].state)); f != "" {
-					out.Violations = append(out.Violations, Violation{Property: "C05", Oracle: "A2", Class: "output-depends-on-package-order",
-						Detail: fmt.Sprintf("%s vs %s: %s: %s", sc.Variants[0].Name, name, f, why), Variant: name})
-				}
+		// C05: for every "together" variant V and every package P that V executed,
+		// the files in P's directory equal those of the variant that ran P alone
+		alone := map[int]int{}
+		for vi, v := range sc.Variants {
+			var pi int
+			if n, _ := fmt.Sscanf(v.Name, "alone:%d", &pi); n == 1 {
+				alone[pi] = vi
+			}
+		}
+		for vi, v := range sc.Variants {
+			if strings.HasPrefix(v.Name, "alone:") {
 				continue
 			}
-			var pi int
-			fmt.Sscanf(name, "alone:%d", &pi)
-			dir := sc.Module.Pkgs[pi].Dir
-			a := filterDir(results[0].state, dir)
-			b := filterDir(results[vi].state, dir)
-			if f, why := diffStates(a, b); f != "" {
-				out.Violations = append(out.Violations, Violation{Property: "C05", Oracle: "A1", Class: "output-depends-on-other-packages",
-					Detail: fmt.Sprintf("together vs %s: %s: %s", name, f, why), Variant: name})
+			executed := map[string]bool{}
+			ok := true
+			for _, st := range results[vi].x.Steps {
+				if st.Resp == nil || st.Resp.ExecErr != "" || st.Resp.LoadErr != "" {
+					ok = false
+				}
+				for p := range st.Executed {
+					executed[p] = true
+				}
+			}
+			if !ok {
+				continue
+			}
+			for pi, avi := range alone {
+				if !executed[sc.Module.ImportPath(pi)] {
+					continue
+				}
+				dir := sc.Module.Pkgs[pi].Dir
+				if f, why := diffStates(filterDir(results[vi].state, dir), filterDir(results[avi].state, dir)); f != "" {
+					out.Violations = append(out.Violations, Violation{Property: "C05", Oracle: "A1", Class: "output-depends-on-other-packages",
+						Detail: fmt.Sprintf("%s vs %s: %s: %s", v.Name, sc.Variants[avi].Name, f, why), Variant: v.Name})
+				}
+				env.Stats.Add("probe/alone-vs-together-compared", 1)
 			}
 		}
 	case "compare-recovery":
@@ -264,7 +286,7 @@ func executeUniverse(env *Env, sc *Scenario, mroot string) ([]Violation, error) 
 			return nil, err
 		}
 		run := v.Ops[0].Run
-		resp, err := w.Do(&proto.RunReq{Root: mroot, Args: run.Args, Sched: run.Sched, Universe: true, NoEvents: true}, env.Timeout)
+		resp, err := w.Do(&proto.RunReq{Root: mroot, Args: run.Args, Sched: run.Sched, Universe: true, UniAll: sc.ExternalRoot != "", NoEvents: true}, 4*env.Timeout)
 		x.Close()
 		if err != nil {
 			return nil, infra("universe: %v", err)
@@ -284,16 +306,11 @@ func executeUniverse(env *Env, sc *Scenario, mroot string) ([]Violation, error) 
 			env.Stats.Add("packages-checked", 1)
 			dig[pr.Path] = pr.Digest
 			for _, p := range pr.Problems {
-				parts := strings.SplitN(p, ":", 4)
-				oracle, class := parts[0], p
-				if len(parts) >= 3 {
-					class = parts[1] + ":" + parts[2]
+				facts := map[string]string{"module": fmt.Sprint(pr.Module)}
+				for k, v := range p.Facts {
+					facts[k] = v
 				}
-				if oracle == "U4" && len(parts) >= 2 {
-					class = parts[1]
-				}
-				viol = append(viol, Violation{Property: "C13", Oracle: oracle, Class: class, Detail: pr.Path + ": " + p, Variant: v.Name,
-					Facts: map[string]string{"pkg": pr.Path, "module": fmt.Sprint(pr.Module)}})
+				viol = append(viol, Violation{Property: "C13", Oracle: p.Oracle, Class: p.Class, Detail: pr.Path + ": " + p.Detail, Variant: v.Name, Facts: facts})
 			}
 		}
 		if vi == 0 {
